@@ -123,13 +123,16 @@ fn gradient(class: &str, k: usize, i: usize, rng_base: u64) -> f32 {
         "constant" => 0.37 + i as f32 * 0.11,
         "sparse" => if (k + i) % 3 == 0 { r.unit() - 0.5 } else { 0.0 },
         "flipping" => (if k % 2 == 0 { 1.0 } else { -1.0 }) * (0.2 + 0.1 * i as f32),
+        // every second step of a slot has an exactly zero gradient in every element: the step is then pure weight
+        // decay / coasting on the moment state, never "nothing"
+        "vanishing" => if k % 2 == 1 { 0.0 } else { 0.3 - 0.15 * i as f32 },
         "tiny" => 1.0e-20 * (1.0 + i as f32),
         "large" => 1.0e10 * (1.0 + i as f32) * if i % 2 == 0 { 1.0 } else { -1.0 },
         _ => panic!("harness: gradient class"),
     }
 }
 
-const CLASSES: [&str; 6] = ["random", "constant", "sparse", "flipping", "tiny", "large"];
+const CLASSES: [&str; 7] = ["random", "constant", "sparse", "flipping", "vanishing", "tiny", "large"];
 
 fn run_history(case: &Value, class: &str, steps: &[(usize, i32)], seed: u64, rep: &mut Report, id: &str) {
     let kind = str_of(case, "kind");
@@ -251,7 +254,7 @@ pub fn replay_optimizer(case: &Value, rep: &mut Report, rng: &mut Rng) {
     for n in case["long"].as_array().unwrap() {
         let n = n.as_u64().unwrap() as usize;
         let steps: Vec<(usize, i32)> = (0..n).map(|k| (1 + (k % 2) * 2, 1 + (k / 4) as i32)).collect();
-        for class in ["constant", "flipping", "sparse"] {
+        for class in ["constant", "flipping", "sparse", "vanishing"] {
             run_history(case, class, &steps, seed, rep, &format!("{}:long{}", id, n));
         }
     }
